@@ -99,9 +99,9 @@ def run(ses):
             jobs += [(job_entry, (p, f, a, ck)) for f, a in vs]
         jobs += [(job_keyhex, (n, ck)) for n in KEY_SIZES]
     jobs += upper.panic_jobs(ses.tier)
-    if ses.tier == 'thorough':
-        from .. import kani
-        jobs.append((kani.job_key_hex, ()))
+    from .. import kani
+    jobs.append((kani.job_footer_compare, ()))        # Kani also checks panic freedom of the footer comparison on the compiled code (footer / segment lengths 0-3)
+    if ses.tier == 'thorough': jobs.append((kani.job_key_hex, ()))
     run_jobs(ses, jobs)
     ses.trusted_base = TRUSTED
     ses.assumptions = ['token text, footer, assertion: arbitrary strings shorter than 2^40 bytes; key objects have the length their type guarantees']
@@ -110,3 +110,4 @@ def run(ses):
 
 confirm = c01.confirm
 replay = c01.replay
+BASELINE = ['footer_compare']
